@@ -650,10 +650,15 @@ def c09_class(d):
         fmax = bits_to_frac(0x7FEFFFFFFFFFFFFF if is64 else 0x7F7FFFFF, is64)
         if "L" in vals and "U" in vals and vals["U"] - vals["L"] > fmax:
             return ("float_two_sided_range_overflow", "float Arbitrary with two bounds whose distance overflows the type: the scaled value is infinite or NaN")
+        thr = Fraction(2) ** (970 if is64 else 103)
+        if "F" in shape and ("L" in vals) != ("U" in vals) and (("L" in vals and vals["L"] >= thr) or ("U" in vals and vals["U"] <= -thr)):
+            return ("float_one_sided_finite_overflow", "float Arbitrary with `finite` and a single bound of large magnitude adds the absolute base value to the bound: the sum overflows to an infinity, which `finite` rejects")
         if any(abs(b) >= 64 for b in excl):
             return ("float_exclusive_bound_delta_absorbed", "float Arbitrary corrects a value equal to an exclusive bound by a fixed delta (2e-6 / 4e-15) that is absorbed by rounding once |bound| >= 64")
         if "L" in vals and "U" in vals and excl and vals["U"] - vals["L"] <= 2 * delta:
             return ("float_exclusive_bound_delta_exceeds_range", "float Arbitrary corrects an exclusive bound by a fixed delta that is wider than the whole valid range")
+        if "L" in vals and "U" in vals and uk == "less" and max(abs(vals["L"]), vals["U"] - vals["L"]) >= 64:
+            return ("float_exclusive_upper_overshoot_exceeds_delta", "float Arbitrary with two bounds, the upper one exclusive: lower + from0to1 * range can overshoot the upper bound by more than the fixed correction delta when |lower| or the range is >= 64, so the corrected value still violates `less`")
         return None
     return None
 
